@@ -1,6 +1,8 @@
 """C14 — split and joined spellings (necessary constants)."""
 from . import r_gates as RG
 from . import r_token as RK
+from . import r_join as RJ
+from . import C20 as RC20
 from .common import info
 
 
@@ -14,6 +16,10 @@ def run(ctx):
         RG.shape_damlev(ctx, "R14.b", gates)
         RG.cost_bounds_C14(ctx, "R14.b", gates)
     RK.notalpha_fallback(ctx, "R14.d")
+    RJ.join_guards(ctx, "R14.e")
+    RJ.split_formula(ctx, "R14.f")
+    RJ.join_formula(ctx, "R14.g")
+    RC20.buffer_rules(ctx, None, None, "R20.f")
     return info("Necessary constants for split/joined spellings at the L=3 worst case: length gate accepts 1-3/4, "
                 "cost(NotAlpha)/4 passes the DL gate, Jaccard gate accepts 1/2, and characters without a language "
-                "class that are not alphabetic get the NotAlpha class (so the separator is charged the NotAlpha cost).")
+                "class that are not alphabetic get the NotAlpha class (so the separator is charged the NotAlpha cost); R14.e: join attempts are skipped only when the other word is strictly shorter than first word + gap; R14.f/g: linear forms of the split halves and of the joined word equal the derived formulas.")
